@@ -580,6 +580,14 @@ func (e *Engine) evalSpecCall(x *SExpr, env *SpecEnv) Value {
 			unsup("spec: arg(%s,%d,%d): no such call", args[0].Val, i, j)
 		}
 		return as[i][j]
+	case "sconcat":
+		// string concatenation (uninterpreted; strings.TrimSuffix is characterised through it)
+		vs := evalArgs()
+		return VTerm{T: mkApp("str_concat", SStr, term(vs[0]), term(vs[1])), Typ: types.Typ[types.String]}
+	case "direntry":
+		// ghost: the directory named by the first argument has an entry with that file name (os.ReadDir)
+		vs := evalArgs()
+		return VTerm{T: mkApp("fs_direntry", SBool, term(vs[0]), term(vs[1])), Typ: boolT}
 	case "ncalled":
 		// ncalled(Callee_Name): how many times the path under consideration has called that callee (through its contract)
 		if len(args) != 1 || args[0].Kind != "ident" {
